@@ -94,7 +94,8 @@ def lp_params(draw, dtype="any", max_order=16):
 def lp_case(draw, dtype="any"):
     c = draw(lp_params(dtype))
     # mixed-list: a Python list whose entries with zero imaginary part are floats and the others complex numbers
-    forms = ["array", "array", "list"] + (["complex-dtype"] if c["k"]["im"] is None else ["mixed-list"])
+    # readonly: an array that must not be written to (numpy.frombuffer, a read-only memory map, a broadcast view)
+    forms = ["array", "array", "list", "readonly"] + (["complex-dtype"] if c["k"]["im"] is None else ["mixed-list"])
     c["form"] = draw(st.sampled_from(forms))
     return c
 
@@ -119,6 +120,10 @@ def _form(v, form):
         return [float(np.real(z)) if np.imag(z) == 0 else complex(z) for z in np.asarray(v)]
     if form == "complex-dtype":
         return np.asarray(v).astype(complex)
+    if form == "readonly":
+        w = np.array(v, copy=True)
+        w.flags.writeable = False
+        return w
     return np.asarray(v)
 
 
@@ -332,7 +337,11 @@ def c11_poly_lsf(ctx, case):
     _labels(ctx, case, c)
     p = len(k)
     ctx.cls("odd" if p % 2 else "even")
-    lsf = np.asarray(lp.poly2lsf(A.copy()), dtype=float)
+    form = ["array", "readonly", "list", "array"][(p + int(abs(float(np.real(k[0]))) * 1000)) % 4]
+    ctx.cls("form=" + form)
+    arg = _form(A.copy(), form)
+    lsf = np.asarray(lp.poly2lsf(arg), dtype=float)
+    ctx.check(np.array_equal(np.asarray(arg), A), "poly2lsf modified its argument")
     ctx.check(lsf.shape == (p,), "poly2lsf returned %s values for order %d" % (lsf.shape, p))
     ctx.check(np.all(np.isfinite(lsf)), "non-finite line spectral frequency")
     ctx.check(lsf[0] > 0 and lsf[-1] < np.pi, "line spectral frequencies leave (0,pi): first %r last %r" % (lsf[0], lsf[-1]))
